@@ -121,6 +121,16 @@ pub fn run(seed: u64, thorough: bool, out_dir: &std::path::Path, scratch: &std::
         let mut ops: Vec<MOp> = vec![];
         let mut obs: Vec<(Vec<u64>, Vec<u64>)> = vec![];
         let mut jops: Vec<Value> = vec![];
+        // transactions whose REAL short ids are proposed now and then: the verifier probe commits them
+        let dummies: Vec<(u64, ckb_types::core::TransactionView)> = (0..5u64).map(|k| {
+            let n = REAL_ID_BASE + (hi as u64) * 8 + k;
+            let tx = ckb_types::core::TransactionBuilder::default()
+                .input(ckb_types::packed::CellInput::new(ckb_types::packed::OutPoint::new(ckb_types::packed::Byte32::from_slice(&[(k + 1) as u8; 32]).unwrap(), (seed % 1000) as u32 + hi as u32), 0))
+                .build();
+            register_real_short_id(n, tx.proposal_short_id());
+            (n, tx)
+        }).collect();
+        let dummy_nums: Vec<u64> = dummies.iter().map(|d| d.0).collect();
         let mut stash: Vec<BlockView> = vec![]; // detached blocks: uncle candidates
         let mut used_uncles: HashSet<ckb_types::packed::Byte32> = HashSet::new();
         let nsteps = rng.range(4, if thorough { 14 } else { 9 });
@@ -129,7 +139,7 @@ pub fn run(seed: u64, thorough: bool, out_dir: &std::path::Path, scratch: &std::
             let mut v = vec![];
             for _ in 0..k {
                 // sometimes re-propose a recent id (same id in several blocks of the window)
-                let id = if !recent.is_empty() && rng.chance(1, 4) { *rng.pick(recent) } else { *next_id += 1; *next_id };
+                let id = if !recent.is_empty() && rng.chance(1, 4) { *rng.pick(recent) } else if rng.chance(1, 4) { *rng.pick(&dummy_nums) } else { *next_id += 1; *next_id };
                 if !v.contains(&id) { v.push(id); }
                 recent.push(id);
                 if recent.len() > 12 { recent.remove(0); }
@@ -144,6 +154,34 @@ pub fn run(seed: u64, thorough: bool, out_dir: &std::path::Path, scratch: &std::
                 out.viol.push(json!({"what": format!("proposal view differs from the on-chain window after {what}"),
                     "detail": {"window": [window.0, window.1], "history": jops, "tip": node.tip().number(),
                                "observed": {"set": o.0, "gap": o.1}, "expected": {"set": e.0, "gap": e.1}}}));
+            }
+            // "... and it agrees with the rule the block verifier applies to commitments": a next block committing a
+            // transaction passes TwoPhaseCommitVerifier exactly when the view calls its id committable
+            {
+                let tip = node.tip();
+                let ctx = ckb_verification_contextual::VerifyContext::new(std::sync::Arc::new(node.shared.store().clone()), node.shared.cloned_consensus());
+                // the contextual verifier with every rule but the two-phase commit switched off (and no resolved transaction handed to the
+                // transaction verifiers): its verdict is TwoPhaseCommitVerifier's
+                let snap = node.shared.snapshot();
+                let mmr = snap.chain_root_mmr(tip.number());
+                let switch = ckb_verification_traits::Switch::DISABLE_ALL - ckb_verification_traits::Switch::DISABLE_TWO_PHASE_COMMIT;
+                let verifier = ckb_verification_contextual::ContextualBlockVerifier::new(ctx, node.shared.async_handle(), switch, node.shared.txs_verify_cache(), &mmr);
+                for (n, tx) in dummies.iter() {
+                    let blk = ckb_types::core::BlockBuilder::default()
+                        .parent_hash(tip.hash()).number(tip.number() + 1)
+                        .transaction(ckb_types::core::TransactionBuilder::default().build())
+                        .transaction(tx.clone())
+                        .build();
+                    let accepted = verifier.verify(&[], &blk).is_ok();
+                    let in_view = o.0.contains(n);
+                    let on_chain = e.0.contains(n);
+                    *out.stats.entry(if accepted { "verifier_probe_accepts".into() } else if e.1.contains(n) { "verifier_probe_rejects_in_gap".into() } else { "verifier_probe_rejects".into() }).or_default() += 1;
+                    if accepted != in_view || accepted != on_chain {
+                        out.viol.push(json!({"what": format!("TwoPhaseCommitVerifier and the proposal view disagree after {what}: a block at height {} committing a transaction proposed as id {n} is {} by the verifier, the view's committable set {} it, the on-chain window {} it",
+                                tip.number() + 1, if accepted { "accepted" } else { "rejected" }, if in_view { "contains" } else { "does not contain" }, if on_chain { "contains" } else { "does not contain" }),
+                            "detail": {"window": [window.0, window.1], "history": jops, "tip": tip.number(), "observed": {"set": o.0, "gap": o.1}}}));
+                    }
+                }
             }
             o
         };
